@@ -166,17 +166,30 @@ def ops_to_events(d, ops, string_names):
     return ev
 
 
-def replay_history(run, fam, hist, d):
-    """hist: list of ("cfg", idx1, "") / ("sync", crash_at or -1, torn)."""
+def replay_history(run, fam, hist, d, reuse=False):
+    """hist: list of ("cfg", idx1, "") / ("sync", crash_at or -1, torn).
+    reuse: one long-lived Kconfig object per tree version carries on from sync to sync (like a client that keeps the
+    object), until a crash ends the process; otherwise every sync gets a fresh object (one process per build)."""
     events = []
     cur = None
+    alive = {}
     for kind, arg, torn in hist:
         if kind == "cfg":
             cur = arg
             events.append({"e": "cfg", "i": cur})
             continue
         rec = fam[cur - 1]
-        k = make_kconf(run, rec["label"]["version"], rec["label"]["assign"])
+        ver = rec["label"]["version"]
+        if reuse and ver in alive:
+            k = alive[ver]
+            for s_ in k.unique_defined_syms:
+                s_.unset_value()
+            for name_, v_ in rec["label"]["assign"].items():
+                k.syms[name_].set_value(v_)
+        else:
+            k = make_kconf(run, ver, rec["label"]["assign"])
+            if reuse:
+                alive = {ver: k}
         string_names = {s.name for s in k.unique_defined_syms if s.orig_type == kc.STRING}
         events.append({"e": "start"})
         crash_at = None if arg < 0 else arg
@@ -188,6 +201,8 @@ def replay_history(run, fam, hist, d):
             except Crash:
                 crashed = True
         events += ops_to_events(d, tap.ops, string_names)
+        if crashed:
+            alive = {}
         if not crashed:
             events += [{"e": "ret"}, {"e": "done"}]
         disk = read_disk(d, string_names)
@@ -346,7 +361,7 @@ def main(run):
     for i, h in enumerate(hists + rnd):
         d = run.sub("sd_%d" % i)
         os.makedirs(d, exist_ok=True)
-        ev = replay_history(run, fam, h, os.path.join(d, "deps"))
+        ev = replay_history(run, fam, h, os.path.join(d, "deps"), reuse=(i % 2 == 1))
         traces.append({"id": i, "events": ev, "src": "tlc" if i < len(hists) else "sweep/random"})
         import shutil
 
